@@ -33,7 +33,7 @@ const prop = "C14"
 
 func TestMain(m *testing.M) {
 	vkit.Rec(prop).SetLevel("exploration",
-		"hostile inputs against a long-lived real InterceptingListener on loopback: ClientHello ALPN lists generated from a grammar over the three library prefixes (suffix empty / 1-2 chars / header only / non-base64 / base64 of random bytes / valid request truncated at any length / oversized fields / chunk indices out of order, duplicated or >=100 / mixed and duplicated prefixes / foreign names), well-signed fetch requests with hostile re-wrapped blobs, raw non-TLS byte strings, honest handshakes cut after k bytes for k over the whole client transcript; after EVERY hostile input one honest node dials. Oracle: Accept never panics, every failure is an error with Temporary()==true, the honest node is then authenticated; closing the base listener yields a non-temporary net.ErrClosed, a failing base listener a non-temporary error. Non-trivial = input with >=1 library-prefixed entry reaching the listener's ClientHello callback, or a drop point inside the handshake; distinct = the input.")
+		"hostile inputs against a long-lived real InterceptingListener on loopback: ClientHello ALPN lists generated from a grammar over the three library prefixes (suffix empty / 1-2 chars / header only / non-base64 / base64 of random bytes / valid request truncated at any length / oversized fields / chunk indices out of order, duplicated or >=100 / mixed and duplicated prefixes / foreign names), well-signed fetch requests with hostile re-wrapped blobs, raw non-TLS byte strings, ClientHellos assembled field by field (hello / record versions of any age, supported-versions absent / empty / old / odd, TLS 1.3 extensions present or not, any cipher-suite list) around an ALPN list of the same grammar, honest handshakes cut after k bytes for k over the whole client transcript; after EVERY hostile input one honest node dials. Oracle: Accept never panics, every failure is an error with Temporary()==true, the honest node is then authenticated; closing the base listener yields a non-temporary net.ErrClosed, a failing base listener a non-temporary error. Non-trivial = input with >=1 library-prefixed entry reaching the listener's ClientHello callback, or a drop point inside the handshake; distinct = the input.")
 	vkit.Main(m)
 }
 
